@@ -2,6 +2,7 @@ package main
 
 import (
 	"fmt"
+	"os"
 	"sort"
 	"go/constant"
 	"go/types"
@@ -817,8 +818,12 @@ func init() {
 				m.problem("closureIs: function %q not found in the current tree", name)
 				return m.ctx.F
 			}
+			target = m.canon(target)
 			if cf, ok := m.closureCode(st, f); ok {
-				return m.ctx.Bool(cf == target)
+				if os.Getenv("GOVC_DEBUG") != "" {
+					fmt.Fprintf(os.Stderr, "closureIs %q: code=%s (%p) target=%s (%p)\n", name, cf.String(), cf, target.String(), target)
+				}
+				return m.ctx.Bool(m.canon(cf) == m.canon(target))
 			}
 			a := m.heapGet(st, "clo.fn", ArrSort(IntSort, IntSort))
 			return m.ctx.And(m.ctx.Neq(f, m.ctx.Int(0)), m.ctx.Eq(m.ctx.Select(a, f), m.fnCode(target)))
@@ -1103,9 +1108,13 @@ func (m *Machine) opaqueEvValue(st *State, fn *ssa.Function, kind, name string, 
 	rt := fn.Signature.Results().At(0).Type()
 	var terms []*Term
 	for _, l := range m.ts.Leaves(rt) {
-		terms = append(terms, m.ctx.App(fmt.Sprintf("%s!%d!%s.%s", kind, st.opaque, name, l.path), l.sort, k, a))
+		terms = append(terms, m.ctx.App(fmt.Sprintf("%s!%d!%s.%s.%s", kind, st.opaque, name, l.path, l.sort), l.sort, k, a))
 	}
-	return m.ts.Unflatten(rt, &terms)
+	v := m.ts.Unflatten(rt, &terms)
+	if p, ok := v.(*Ptr); ok {
+		p.Opaque = true
+	}
+	return v
 }
 
 // ---------- recursive specification functions ("fuel 1") ----------
